@@ -361,10 +361,47 @@ rule!(op_8(i) -> Value, {
     })
 });
 
+// Nested expressions (brackets, template elements, if/let/?: operands, chains of unary operators)
+// are parsed recursively; the depth is limited so that the parser can not overflow the stack.
+// An unoptimized build needs about 50KB of stack per level.
+const MAX_NESTING: usize = 16;
+thread_local! {
+    static NESTING: std::cell::Cell<usize> = std::cell::Cell::new(0);
+}
+struct NestingGuard;
+impl NestingGuard {
+    fn enter<'a, E>(i: Span<'a>) -> Result<Self, nom::Err<E>>
+    where
+        E: ParseError<Span<'a>> + ContextError<Span<'a>>,
+    {
+        NESTING.with(|n| {
+            if n.get() >= MAX_NESTING {
+                Err(nom::Err::Failure(E::add_context(
+                    i,
+                    "expression nested too deep",
+                    E::from_error_kind(i, nom::error::ErrorKind::TooLarge),
+                )))
+            } else {
+                n.set(n.get() + 1);
+                Ok(NestingGuard)
+            }
+        })
+    }
+}
+impl Drop for NestingGuard {
+    fn drop(&mut self) {
+        NESTING.with(|n| n.set(n.get() - 1));
+    }
+}
+
 //unary opreator
 rule!(op_7(i) -> Value, {
     alt((
-        map(nom_tuple((alt((tag("!"), tag("~"), tag("-"))), op_7)),
+        map(
+            nom_tuple((alt((tag("!"), tag("~"), tag("-"))), |i| {
+                let _guard = NestingGuard::enter(i)?;
+                op_7(i)
+            })),
             |(op,p1)|parse1(op, p1)
         ),
         op_8
@@ -465,11 +502,14 @@ rule!(op_let -> Value, {
 });
 
 rule!(op_0 -> Value, {
-    alt((
-        op_if,
-        op_let,
-        op_cond
-    ))
+    |i| {
+        let _guard = NestingGuard::enter(i)?;
+        alt((
+            op_if,
+            op_let,
+            op_cond
+        ))(i)
+    }
 });
 
 rule!(root(i)->Value, {
